@@ -151,6 +151,13 @@ def chan(tier, pol="block", cap=1, unsub=True):
               subs={"s1": {"kind": "chan", "cap": cap, "pol": pol}, "s2": {"kind": "direct"}})
 
 
+def chan_default(tier):
+    """subscribed(): the variant with the default capacity (16) and BlockOnFull"""
+    progs = [{"c1": [dict(S("subscribed", "s1"), via="default"), D(1), D(2), S("unsub", "s1")], "c2": STOP}]
+    return _i("chan_default", progs, {1: 0, 2: 0}, cap=3,
+              subs={"s1": {"kind": "chan", "cap": 16, "pol": "block"}})
+
+
 def effects(tier, variant=0):
     if variant == 0:
         rs = {"r1": {0: red("D", eff("task")), 1: red("K", eff("panic"))}, "r2": {0: red("D", eff("fn")), 1: red("D")}}
@@ -220,12 +227,12 @@ def api_mix(tier, k):
     """role combinations for C13"""
     roles = {
         "prod": [D(1, "impl"), D(2, "trait")],
-        "subm": [S("add_sub", "s1"), S("unsub", "s1")],
-        "chanm": [S("subscribed", "s2"), S("unsub", "s2")],
+        "subm": [dict(S("add_sub", "s1"), via="store"), S("unsub", "s1")],
+        "chanm": [dict(S("subscribed", "s2"), via="store"), S("unsub", "s2")],
         "iterm": [S("iter", "s3"), S("signal", "g"), S("next", "s3"), S("next", "s3"), S("next", "s3"), S("drop_iter", "s3")],
         "read": [O("get_state"), O("metrics")],
         "reg": [S("add_reducer", "r2"), S("add_mw", "m1")],
-        "stop": [O("stop")],
+        "stop": [dict(O("stop"), via="store")],
         "close": [O("close"), O("stop")],
         "drop": [O("drop_store")],
         "selm": [S("add_sub", "s4"), S("unsub", "s4")],
@@ -424,11 +431,11 @@ def table(pid, tier):
                  free=[(i, 80 if q else 500) for i in insts],
                  strict=[])
     elif pid == "C10":
-        insts = [chan(tier, "block", 1, True), chan(tier, "oldest", 1, False)] + \
+        insts = [chan(tier, "block", 1, True), chan(tier, "oldest", 1, False), chan_default(tier)] + \
             ([] if q else [chan(tier, "latest", 1, True), chan(tier, "block", 2, False), chan(tier, "oldest", 2, True)])
         inv = ["C10_OwnThread", "C10_Stream", "C10_Flush", "C10_NoStall", "C05_Bound"]
-        T = dict(mc=[(i, inv, []) for i in insts], gen=[(i, 900 if q else 10000) for i in insts[:2]],
-                 free=[(i, 80 if q else 500) for i in insts])
+        T = dict(mc=[(i, inv, []) for i in insts], gen=[(i, 700 if q else 10000) for i in insts[:3]],
+                 free=[(i, 60 if q else 500) for i in insts])
     elif pid == "C11":
         insts = [effects(tier, 0), effects(tier, 4), effects(tier, 1), effects(tier, 3)] + ([] if q else [effects(tier, 2)])
         inv = ["C11_AtMostOnce", "C11_Once", "C11_Worker", "C11_Followup", "C11_Once_strict"]
